@@ -372,12 +372,16 @@ func (e *Enc) typeAssume(v Term, t types.Type, hwm Term) Term {
 		return And(Le(I(0), v), Lt(v, hwm))
 	case *types.Slice:
 		e.declSlice()
-		return And(Le(I(0), app(SInt, "sl_base", v)), Lt(app(SInt, "sl_base", v), hwm), Le(I(0), app(SInt, "sl_off", v)), Le(I(0), app(SInt, "sl_len", v)), Le(app(SInt, "sl_len", v), app(SInt, "sl_cap", v)),
+		capMax := "72057594037927936" // 2^56: no Go slice of non-empty elements can be longer (address space)
+		if st, ok := u.Elem().Underlying().(*types.Struct); ok && st.NumFields() == 0 {
+			capMax = "9223372036854775807"
+		}
+		return And(Le(I(0), app(SInt, "sl_base", v)), Lt(app(SInt, "sl_base", v), hwm), Le(I(0), app(SInt, "sl_off", v)), Le(app(SInt, "sl_off", v), IStr(capMax)), Le(I(0), app(SInt, "sl_len", v)), Le(app(SInt, "sl_len", v), app(SInt, "sl_cap", v)), Le(app(SInt, "sl_cap", v), IStr(capMax)),
 			Imp(Eq(v, I(0)), And(Eq(app(SInt, "sl_len", v), I(0)), Eq(app(SInt, "sl_cap", v), I(0)))))
 	case *types.Basic:
 		if u.Info()&types.IsString != 0 {
 			e.declStr()
-			return Le(I(0), app(SInt, "strlen", v))
+			return And(Le(I(0), app(SInt, "strlen", v)), Le(app(SInt, "strlen", v), IStr("72057594037927936")))
 		}
 	case *types.Struct:
 		if !isOpaqueStruct(t) {
